@@ -428,6 +428,14 @@ def gen_c14(ctx):
                         if k > 0 and rng.below(2):
                             st[0] = "C"           # the first command waits for end-of-file on its stdin
                         st[k] = "nosuch"
+                        # an unbounded writer feeding a sink that reads for ever never ends, whatever the parent does
+                        # (not self-inflicted): keep every command after a `Y` one that passes the broken pipe back
+                        seen_y = False
+                        for j in range(k):
+                            if st[j] == "Y":
+                                seen_y = True
+                            elif seen_y and st[j] == "S":
+                                st[j] = "C"
                         det = "".join("1" if rng.below(5) == 0 else "0" for _ in range(n))
                         if rng.below(8) == 0:
                             det = "1" * n
